@@ -176,7 +176,7 @@ class Comparison(MatchCriteria):
         if self.referenced_parameter in packet:
             if self.use_calibrated_value:
                 parsed_value = packet[self.referenced_parameter]
-                if not parsed_value:
+                if parsed_value is None:
                     raise ComparisonError(f"Comparison {self} was instructed to useCalibratedValue (the default)"
                                           f"but {self.referenced_parameter} does not appear to have a derived value.")
             else:
